@@ -432,6 +432,9 @@ func e3Jobs(prop, tier string) []e3Job {
 	for p := 0; p < 8; p++ {
 		jobs = append(jobs, e3Job{6, 0, p, 8})
 	}
+	for p := 0; p < 4; p++ {
+		jobs = append(jobs, e3Job{7, 0, p, 4})
+	}
 	return jobs
 }
 
@@ -544,6 +547,52 @@ func forEachCase(prop, tier string, j e3Job, fn func(c e3Case)) {
 		sizOriginLattice(seeds[j.Seed], run)
 	case 6:
 		packetHeaderLattice(j, run)
+	case 7:
+		lsePresetLattice(j, run)
+	}
+}
+
+// lsePresetLattice: JPEG-LS preset parameters (LSE id 1) as a whole — MAXVAL x threshold pattern x RESET over boundary
+// values, spliced in front of SOS (and, once per combination class, in front of SOF) of three valid JPEG-LS streams.
+// Single-byte deviations change one field at a time; the fields constrain each other (T1 <= T2 <= T3 <= MAXVAL, MAXVAL <
+// 2^P, RESET >= 3), so the inconsistent combinations are only reachable together.
+func lsePresetLattice(j e3Job, run func(fam int, in []byte, fi *imagetypes.FrameInfo, desc string)) {
+	var bases [][]byte
+	var names []string
+	for _, sd := range allSeeds() {
+		switch sd.Name {
+		case "jpegls-P8-c3", "jpegls-P16-c1", "jpegls-near-P8-c1":
+			bases = append(bases, sd.Data)
+			names = append(names, sd.Name)
+		}
+	}
+	maxvals := []int{0, 1, 2, 3, 127, 255, 256, 4095, 32767, 65535}
+	resets := []int{0, 1, 2, 3, 63, 64, 65, 255, 65535}
+	n := 0
+	for bi, b := range bases {
+		sos := bytes.Index(b, []byte{0xFF, 0xDA})
+		sof := bytes.Index(b, []byte{0xFF, 0xF7})
+		if sos < 0 || sof < 0 {
+			continue
+		}
+		for _, mv := range maxvals {
+			pats := [][3]int{{0, 0, 0}, {1, 1, 1}, {3, 7, 21}, {mv, mv, mv}, {mv + 1, mv + 1, mv + 1}, {65535, 65535, 65535}, {21, 7, 3}, {1, 65535, 2}}
+			for pi, t := range pats {
+				for _, rs := range resets {
+					n++
+					if n%j.Parts != j.Part {
+						continue
+					}
+					lse := []byte{0xFF, 0xF8, 0x00, 0x0D, 0x01, byte(mv >> 8), byte(mv), byte(t[0] >> 8), byte(t[0]), byte(t[1] >> 8), byte(t[1]), byte(t[2] >> 8), byte(t[2]), byte(rs >> 8), byte(rs)}
+					at := sos
+					if (pi+rs)%7 == 0 {
+						at = sof
+					}
+					st := append(append(append([]byte{}, b[:at]...), lse...), b[at:]...)
+					run(famJPEG, st, nil, fmt.Sprintf("%s + LSE MAXVAL=%d T=%v RESET=%d at %d (base %d)", names[bi], mv, t, rs, at, bi))
+				}
+			}
+		}
 	}
 }
 
